@@ -67,6 +67,11 @@ type ExecutionContext struct {
 	template   *Template
 	macroDepth int
 
+	// nodeState holds what stateful tags (cycle, ifchanged) remember during
+	// one execution, keyed by node. All child contexts share it; the compiled
+	// template itself is never written to while executing.
+	nodeState map[any]any
+
 	Autoescape bool
 	Public     Context
 	Private    Context
@@ -84,7 +89,8 @@ func newExecutionContext(tpl *Template, ctx Context) *ExecutionContext {
 	privateCtx["pongo2"] = pongo2MetaContext
 
 	return &ExecutionContext{
-		template: tpl,
+		template:  tpl,
+		nodeState: make(map[any]any),
 
 		Public:     ctx,
 		Private:    privateCtx,
@@ -94,7 +100,8 @@ func newExecutionContext(tpl *Template, ctx Context) *ExecutionContext {
 
 func NewChildExecutionContext(parent *ExecutionContext) *ExecutionContext {
 	newctx := &ExecutionContext{
-		template: parent.template,
+		template:  parent.template,
+		nodeState: parent.nodeState,
 
 		Public:     parent.Public,
 		Private:    make(Context),
@@ -106,6 +113,15 @@ func NewChildExecutionContext(parent *ExecutionContext) *ExecutionContext {
 	newctx.Private.Update(parent.Private)
 
 	return newctx
+}
+
+// state returns the per-execution state map of stateful tags.
+func (ctx *ExecutionContext) state() map[any]any {
+	if ctx.nodeState == nil {
+		// a context that was not created by this package's constructors
+		ctx.nodeState = make(map[any]any)
+	}
+	return ctx.nodeState
 }
 
 func (ctx *ExecutionContext) Error(msg string, token *Token) *Error {
